@@ -453,3 +453,50 @@ def source(prog, rng, plain=False):
             out += "\treturn: %s\n" % src_expr(result, lay, result[0] != "lit")
         out += "}\n\n"
     return out
+
+
+# ---------------------------------------------------------------------------
+# splitting a program over several modules (C12)
+# ---------------------------------------------------------------------------
+
+def calls_in(node, acc):
+    if isinstance(node, (list, tuple)):
+        if len(node) >= 2 and node[0] in ("call", "callstmt") and isinstance(node[1], str):
+            acc.add(node[1])
+        for x in node:
+            calls_in(x, acc)
+    return acc
+
+
+def source_modules(prog, assignment, rng, order=None, plain=True, break_privacy=None):
+    """assignment: function name -> module index.  Returns the multi-module
+    payload understood by the harness ("//// module <path>" separators), modules
+    listed in `order`.  break_privacy = (caller, callee): leave callee private
+    although it is used from another module (must be rejected)."""
+    lay = Layout(rng, plain)
+    nmods = max(assignment.values()) + 1
+    calls = {f[0]: calls_in(f[3], set()) | calls_in(f[4], set()) for f in prog["funcs"]}
+    needs_pub = set()
+    imports = {m: set() for m in range(nmods)}
+    for f, cs in calls.items():
+        for c in cs:
+            if assignment[c] != assignment[f]:
+                needs_pub.add(c)
+                imports[assignment[f]].add(assignment[c])
+    texts = []
+    for m in range(nmods):
+        out = ""
+        for j in sorted(imports[m]):
+            out += 'import "m%d.pn";\n' % j
+        for name, params, ret, body, result, _ in prog["funcs"]:
+            if assignment[name] != m: continue
+            pub = name in needs_pub and not (break_privacy and break_privacy == name)
+            out += "%sfn %s(%s)%s\n{\n" % ("pub " if pub else "", name, ", ".join("%s: %s" % (x, src_ty(t)) for x, t in params),
+                                             " -> " + src_ty(ret) if ret else "")
+            for s in body: out += src_stmt(s, lay, 1)
+            if result is not None:
+                out += "\treturn: %s\n" % src_expr(result, lay, result[0] != "lit")
+            out += "}\n\n"
+        texts.append(out)
+    order = order if order is not None else list(range(nmods))
+    return "".join("//// module m%d.pn\n%s" % (m, texts[m]) for m in order), needs_pub
